@@ -57,7 +57,7 @@ class wall_clock_limit:
         return False
 
 
-NATIVE_LIMIT_S = float(os.environ.get("PYVC_NATIVE_LIMIT_S", "60"))
+NATIVE_LIMIT_S = float(os.environ.get("PYVC_NATIVE_LIMIT_S", "30"))
 
 
 class RandomHarness(NativeHarness):
